@@ -154,6 +154,14 @@ LITERALS = [
     ('block array', 'a int[2,2] = """\n[[ 0, 1],\n [ 5, 6]]\n""" km/s', 'a', [[0, 1], [5, 6]], 'km/s', (I, 32, False)),
     ('block text', 'a str = """\nline one\nline two\n"""', 'a', 'line one\nline two', None, (S, None, None)),
     ('uint16 array', 'a uint16[2] = [7,8]', 'a', [7, 8], None, (I, 16, True)),
+    ('table with a header and no rows: int column', 't table = """\nx int\ny float m\nz str\nw bool\n\n"""', 't.x', [], None, (I, 32, False)),
+    ('table with a header and no rows: float column keeps its unit', 't table = """\nx int\ny float m\nz str\nw bool\n\n"""', 't.y', [], 'm', (F, 64, None)),
+    ('table with a header and no rows: str column', 'g\n  t table = """\nx int\nz str\n\n"""\n  after int = 0', 'g.t.z', [], None, (S, None, None)),
+    ('table with a header and no rows: bool column', 't table = """\nw bool\n\n"""', 't.w', [], None, (B, None, None)),
+    ('table with a header and no rows: node behind it', 'g\n  t table = """\nx int\nz str\n\n"""\n  after int = 7', 'g.after', 7, None, (I, 32, False)),
+    ('empty int array', 'a int[:] = []', 'a', [], None, (I, 32, False)), ('empty float array with unit', 'a float[:] = [] m', 'a', [], 'm', (F, 64, None)), ('empty str array', 'a str[:] = []', 'a', [], None, (S, None, None)),
+    ('array with one element', 'a float[1] = [2.5]', 'a', [2.5], None, (F, 64, None)), ('1x1 matrix', 'a int[1,1] = [[-3]]', 'a', [[-3]], None, (I, 32, False)), ('array with one zero', 'a int[1:] = [0]', 'a', [0], None, (I, 32, False)),
+    ('table with a single row', 't table = """\nx int\ny float m\n\n1 2.5\n"""', 't.y', [2.5], 'm', (F, 64, None)),
     ('table int column', 'out table = """\nsnap int\ntime float s\n\n0 0.234\n1 1.355\n2 2.535\n"""', 'out.snap', [0, 1, 2], None, (I, 32, False)),
     ('table float column with unit', 'out table = """\nsnap int\ntime float s\n\n0 0.234\n1 1.355\n2 2.535\n"""', 'out.time', [0.234, 1.355, 2.535], 's', (F, 64, None)),
     ('table three columns', 'g\n  t table = """\na int\nb str\nc bool\n\n1 x true\n2 y false\n"""', 'g.t.b', ['x', 'y'], None, (S, None, None)),
